@@ -60,25 +60,3 @@ fn c06_from_root_is_the_reverse_chain_bounded() {
     assert!(it.next().is_none(), "C06.from_root.nothing_else");
 }
 
-/// `Context::lookup_current` falls back to the real Registry's per-thread span stack when the collector IS a Registry
-/// (thread_local::ThreadLocal: crashes the Kani compiler when reachable). The stub root is not a Registry, so the
-/// fallback is never taken; this stub only removes it from the reachable code.
-fn span_stack_stub(_r: &crate::registry::Registry) -> core::cell::Ref<'_, crate::registry::stack::SpanStack> { unreachable!() }
-// BOUND: span tables of 4 spans
-#[kani::proof]
-#[kani::unwind(7)]
-#[kani::stub(core::fmt::Formatter::pad, pad_stub)]
-#[kani::stub(crate::registry::Registry::span_stack, span_stack_stub)]
-fn c06_event_parent_resolution_bounded() {
-    let mut root = any_table();
-    root.current = nd(); kani::assume(root.current <= VNSPAN as u64);
-    let cx = Context::new(&root);
-    let vs = VMETA.fields().value_set(&[]);
-    let mode: u8 = nd(); kani::assume(mode < 3);
-    let explicit: u64 = nd(); kani::assume(explicit >= 1 && explicit <= VNSPAN as u64);
-    let ev = match mode { 0 => Event::new(&VMETA, &vs), 1 => Event::new_child_of(None, &VMETA, &vs), _ => Event::new_child_of(span::Id::from_u64(explicit), &VMETA, &vs) };
-    let got = cx.event_span(&ev).map(|s| s.id().into_u64());
-    let want = match mode { 0 => if root.current == 0 { None } else { Some(root.current) }, 1 => None, _ => Some(explicit) };
-    assert!(got == want, "C06.event_span.contextual_is_current_span_explicit_parent_or_root_overrides");
-    assert!(cx.lookup_current().map(|s| s.id().into_u64()) == if root.current == 0 { None } else { Some(root.current) }, "C06.lookup_current.is_the_collectors_current_span");
-}
